@@ -100,6 +100,7 @@ type conn struct {
 	frames     int
 	sid        string
 	played     bool
+	recorded   bool
 }
 
 type world struct {
@@ -186,9 +187,14 @@ func (w *world) registry() Val {
 			} else {
 				k = 99 // published by somebody we cannot identify
 				addr := s.Attr("addr")
-				for i, c := range w.conns {
-					if c.local != "" && c.local == addr {
-						k = int64(2 + i)
+				// the publisher is known by its client address; two connections to the two listeners can
+				// share an ephemeral port, so among equals the one that got a 200 for RECORD is meant
+				for pass := 0; pass < 2 && k == 99; pass++ {
+					for i, c := range w.conns {
+						if c.local != "" && c.local == addr && (pass == 1 || c.recorded) {
+							k = int64(2 + i)
+							break
+						}
 					}
 				}
 			}
@@ -496,6 +502,9 @@ func (w *world) rtspEvent(c *conn, m int64, path string, cred Val) Val {
 		code = -2
 	}
 	mediaSeen := false
+	if m == 6 && code == 200 {
+		c.recorded = true
+	}
 	if m == 5 {
 		budget := 3
 		if code == 200 {
